@@ -24,7 +24,7 @@ import numpy as np
 from harness import core
 from props.c07 import (snapshot, _mc_module, _violation, choose_containers, ALL_CONTAINERS, SMALL_HEAP, FORMS, TOL,
                        rel_mismatch, _describe, _form_snapshot, single_thread, big, br_vec, line_matrix,
-                       line_containers, line_cases, line_module, LINE_CONSTANTS, LINE_SIZES, LINE_SMALL,
+                       line_containers, line_cases, line_module, LINE_CONSTANTS, LINE_SIZES, LINE_SMALL, LINE_JAVA,
                        _replay_line_results)
 
 SPEC_DIR = os.path.join(core.SPECS, "tpt")
@@ -32,7 +32,8 @@ INVS = ["FTypeOK", "Solvable", "RatOK", "FRatOK",
         "PinnedSources", "PinnedSinks", "InUnit", "FirstStep", "MaskedEqualsRestricted", "SplitBySink",
         "GivenEqComputed", "DetailedBalance", "BackwardFirstStep",
         "FluxDef", "FluxNonNegative", "NetDef", "NetOneDirection", "Conservation", "NoInflowToSources",
-        "NoOutflowFromSinks", "SourceOutEqSinkIn", "SomeFlux", "PopsProbability", "PopsDefinedIffReactive"]
+        "NoOutflowFromSinks", "SourceOutEqSinkIn", "SomeFlux", "PopsProbability", "PopsDefinedIffReactive",
+        "PopulationScaling"]
 
 # parts single-worker TLC processes per scope (check + emit in one pass); run: how many of them run
 SCOPES = {
@@ -189,14 +190,14 @@ def _line_flux_jobs(ctx, d):
         for k, c in enumerate(cases):       # one process per large case
             mod = line_module(d, "MCLineFlux%d_%d" % (n, k), [c], base="LineFlux")
             jobs.append(dict(module=mod, cfg=os.path.basename(cfg), cwd=d, workers=1, timeout=1800,
-                             java_opts=SMALL_HEAP, label="line chain n=%d placement %d pscale=%s, check+emit"
+                             java_opts=LINE_JAVA, label="line chain n=%d placement %d pscale=%s, check+emit"
                              % (n, k, "/".join(map(str, c["pscale"])))))
     stiff = stiff_cases(nid)
     mod = line_module(d, "MCLineFluxStiff", stiff, base="LineFlux")
-    jobs.append(dict(module=mod, cfg=os.path.basename(cfg), cwd=d, workers=1, timeout=1800, java_opts=SMALL_HEAP,
+    jobs.append(dict(module=mod, cfg=os.path.basename(cfg), cwd=d, workers=1, timeout=1800, java_opts=LINE_JAVA,
                      label="stiff line chains (%d cases), check+emit" % len(stiff)))
     mod = line_module(d, "MCLineFluxSmall", [], small_ns=LINE_SMALL[ctx.tier], modes=("flux",), base="LineFlux")
-    jobs.append(dict(module=mod, cfg=os.path.basename(cfg), cwd=d, workers=1, timeout=1800, java_opts=SMALL_HEAP,
+    jobs.append(dict(module=mod, cfg=os.path.basename(cfg), cwd=d, workers=1, timeout=1800, java_opts=LINE_JAVA,
                      coverage=True, label="line chains n in %s, every placement, check+emit+action coverage"
                      % (list(LINE_SMALL[ctx.tier]),)))
     return jobs
@@ -267,7 +268,14 @@ def run(ctx):
                 "included) on N states x every disjoint non-empty source/sink pair; each case is replayed with "
                 "populations given and None, dense + sparse containers; distinct by (X, sources, sinks); non-trivial when some "
                 "state lies strictly between the two sets in committor")
-    ctx.assumptions += ["reversible chains T = X/rowsum(X); exact scope N <= 5 with at most 4 intermediate states",
+    ctx.assumptions += ["LineFlux.tla: reversible nearest-neighbour chains with 999..1200 states, and small ones whose "
+                        "weights span up to 8 orders of magnitude; values compared at %g relative per entry (+ %g of "
+                        "the largest entry), %g for the chains with weights spanning >= 4 orders of magnitude; with "
+                        "populations=None (eigenvector computed by the code) at %g / %g for the large / those chains"
+                        % (TOL, 0.1 * TOL, TOL_STIFF, TOL_LARGE_NONE, TOL_STIFF_NONE),
+                        "populations scaled by 2^-30 (ScalingLaw of LineFlux.tla): fluxes and net fluxes scale, "
+                        "reactive populations do not",
+                        "reversible chains T = X/rowsum(X); exact scope N <= 5 with at most 4 intermediate states",
                         "reactive_populations is not judged when no state has 0 < q+ < 1 (the code returns 0/0 there)",
                         "float64 inputs; containers ndarray, csr_matrix, lil_matrix, csc_matrix"]
     b = core.build_repo()
@@ -300,7 +308,13 @@ def run(ctx):
                                                                         "+emit" if emit else "")))
         if sc.get("emit", sc["run"]) < sc["parts"]:
             ctx.exhaustive = False
-    results = ctx.tlc_parallel(jobs, max_par=16)
+    ljobs = [] if os.environ.get("VERIF_SMOKE") else _line_flux_jobs(ctx, d)
+    results = ctx.tlc_parallel(jobs + ljobs, max_par=16)
+    results, line_results = results[:len(jobs)], results[len(jobs):]
+    t1 = time.time()
+    ctx.notes["replayed_line_cases"] = _replay_line_results(ctx, line_results, ljobs, replay_fn=replay_line_flux_case,
+                                                           report=_report_line)
+    ctx.notes["wall_s_line_replay"] = round(time.time() - t1, 1)
     t1 = time.time()
     ncases, kinds, undefined = 0, {}, 0
     for r, j, sc in zip(results, jobs, scs):
@@ -330,14 +344,17 @@ def run(ctx):
     ctx.notes["replayed_cases"] = ncases
     ctx.notes["cases_with_undefined_reactive_populations"] = undefined
     ctx.notes["result_container_types"] = {k: sorted(v) for k, v in sorted(kinds.items())}
-    ctx.notes["wall_s_tlc_replay"] = [round(t1 - t0, 1), round(time.time() - t1, 1)]
+    ctx.notes["wall_s_tlc_replay"] = [round(t1 - t0 - ctx.notes["wall_s_line_replay"], 1), round(time.time() - t1, 1)]
 
 
 def replay(ctx, path):
     rec = json.load(open(path))
     b = core.build_repo()
     core.activate(b)
-    if rec.get("kind") == "replay":
+    if rec.get("kind") == "replay" and rec["case"].get("family") == "line":
+        ctx.case(("replay",), sample=None)
+        _report_line(ctx, rec["case"], replay_line_flux_case(rec["case"]))
+    elif rec.get("kind") == "replay":
         rr = replay_case(rec["case"])
         ctx.case(("replay",), sample=rec["case"])
         _report(ctx, rec["case"], rr["bad"])
